@@ -101,6 +101,29 @@ def variant_of_source(repo):
         v["tl_one_counter"] = True
     else:
         raise Unrecognised("ThreadLocalPtrProxy numbers its instances in a way the translator does not know")
+    fb = rd("src/fault/fiber/fiber_base.cpp")
+    tl_fixed = [
+        ("FiberBase::GetTLS", _body(fb, r"void\* FiberBase::GetTLS\(std::uint64_t id, std::unordered_map<std::uint64_t, void\*>& defaults\)\s*\{"),
+         r"^\{ auto it = _tls\.find\(id\); if \(it == _tls\.end\(\)\) \{ return defaults\[id\]; \} return it->second; \}$"),
+        ("FiberBase::SetTLS", _body(fb, r"void FiberBase::SetTLS\(std::uint64_t id, void\* value\)\s*\{"), r"^\{ _tls\[id\] = value; \}$"),
+        ("fiber::GetImpl", _body(rd("src/fault/fiber/thread_local_proxy.cpp"), r"void\* GetImpl\(std::uint64_t i\)\s*\{"),
+         r"^\{ auto\* fiber = fault::Scheduler::Current\(\); YACLIB_ASSERT\(fiber\); return fiber->GetTLS\(i, GetMap\(\)\); \}$"),
+        ("fiber::Set", _body(rd("src/fault/fiber/thread_local_proxy.cpp"), r"void Set\(void\* new_value, std::uint64_t i\)\s*\{"),
+         r"^\{ auto\* fiber = fault::Scheduler::Current\(\); YACLIB_ASSERT\(fiber\); fiber->SetTLS\(i, new_value\); \}$"),
+        ("fiber::SetDefault", _body(rd("src/fault/fiber/thread_local_proxy.cpp"), r"void SetDefault\(void\* new_value, std::uint64_t i\)\s*\{"),
+         r"^\{ GetMap\(\)\[i\] = new_value; \}$"),
+    ]
+    v["tl_text"] = None   # a deviation here is reported, but the lock machines are still checked against the tree
+    for what, body, rx in tl_fixed:
+        if not re.search(rx, body) and v["tl_text"] is None:
+            v["tl_text"] = "%s is not the text FiberSync.v (module Tl) transcribes: %s" % (what, body[:300])
+    for frag in ("ThreadLocalPtrProxy& operator=(Type* value) noexcept { Set(value, this->_i); return *this; }",
+                 "Type* Get() const noexcept { return static_cast<Type*>(GetImpl(this->_i)); }",
+                 "explicit operator bool() const noexcept { return Get() != nullptr; }",
+                 "Type* operator->() const noexcept { return Get(); }",
+                 "{ if (value != nullptr) { SetDefault(value, _i); } }"):
+        if frag not in tl and v["tl_text"] is None:
+            v["tl_text"] = "ThreadLocalPtrProxy no longer contains the text the Tl machine transcribes: " + frag
     # the functions that carry no flag must be exactly what FiberSync.v transcribes
     mx = rd("src/fault/fiber/mutex.cpp")
     fixed = [
@@ -232,6 +255,10 @@ def scenario_sets(tier, seed):
            if cv_ok((a, b)) and any(c in a + b for c in "Wwxu") and any(c in a + b for c in "NAn")]
     ex += ["cv/W|n|N", "cv/W|W|A"]
     ex += ["tls/0pYp|1pYp4q", "tls/pY0Yp|qY5Yq|p1p", "tls/04pq|15pq|pq", "tls/08pr|19pr", "tls/0Y8pYr|r9Yp"]
+    # initialisers (d, e start non-null), stores of nullptr, reads after them in the same and in other fibers, after
+    # other fibers' stores, in fibers created later
+    ex += ["tls/sv s|st".replace(" ", ""), "tls/AYvYs|sYBYs|s", "tls/twYt|CYtYD|t", "tls/0xYp|p1Yp", "tls/vYsAYs|sYvYs",
+           "tls/vJ(sAs)s|Bs", "tls/8zrwt|9rt", "tls/AJ(svs)Yvs|J(s)Bs"]
     ex += ["thread/J(S)J()YD(Y)S", "thread/D(S)D(Y)Y", "thread/J(J(Y)D(S))Y", "thread/D(J(S))J(Y)S", "thread/D(Y)D(Y)J(Y)"]
     ex += ["mutex/LS|L", "timed_mutex/L(S)|F|G", "cv/WS|SN"]
     sets.append(("exhaustive: 2 fibers x (<=2,<=1) blocks of every lock class, 2 fibers x <=2 condvar operations, thread and "
@@ -341,9 +368,9 @@ def map_trace(scenario, trace):
     machine = MACHINE.get(cls)
     evs, results, jn, joins, tl, reads = [], [], [], [], [], []
     cjn, ctl = [], []
-    slots = [0, 1, 2]
+    slots = [0, 1, 2, 3, 4]
     seen_slots = None
-    VAR = {"a": 0, "b": 1, "c": 2}
+    VAR = {"a": 0, "b": 1, "c": 2, "d": 3, "e": 4}
     pending = {}      # fiber -> (op, arg) announced, not started
     yielded = set()
     last_op = {}      # fiber -> index in evs of its last started operation (to attach picks)
@@ -419,13 +446,16 @@ def map_trace(scenario, trace):
                 jn.append("Jn.EExit %d" % f)
                 cjn.append("O %d 2 0 0" % f)
             elif w[0] == "slots":
-                slots = [int(x) for x in w[1:4]]
+                slots = [int(x) for x in w[1:6]]
                 seen_slots = tuple(slots)
-            elif w[0] in ("seta", "setb", "setc"):
+            elif w[0] == "dflt":
+                tl.append("Tl.EDefault %d %d" % (int(w[1]), int(w[2])))
+                ctl.append("O %d 3 %d %d" % (f, int(w[1]), int(w[2])))
+            elif w[0] in ("seta", "setb", "setc", "setd", "sete"):
                 x = slots[VAR[w[0][3]]]
                 tl.append("Tl.ESet %d %d %d" % (f, x, int(w[1])))
                 ctl.append("O %d 1 %d %d" % (f, x, int(w[1])))
-            elif w[0] in ("geta", "getb", "getc"):
+            elif w[0] in ("geta", "getb", "getc", "getd", "gete"):
                 x = slots[VAR[w[0][3]]]
                 tl.append("Tl.EGet %d %d" % (f, x))
                 ctl.append("O %d 2 %d 0" % (f, x))
@@ -701,7 +731,10 @@ def main(ck):
         variant = None
     if variant is not None:
         write_gen(variant)
-        ck.cov["source_variant"] = variant
+        if variant.get("tl_text"):
+            ck.broken.append(dict(name="translation of the thread-local storage sources (FiberBase::GetTLS/SetTLS, "
+                                       "thread_local_proxy) into the Tl machine", detail=variant["tl_text"]))
+        ck.cov["source_variant"] = {k: variant[k] for k in FLAGS + ["tl_one_counter"]}
     # ---- proofs: the generic development, then the instantiation at the tree under test (one file per class, so
     # that a missing fix breaks exactly the theorems about its class)
     closed, axioms = 0, set()
@@ -717,7 +750,7 @@ def main(ck):
     ck.cov["checker_cmd"] = ("cd /verif/coq && make -k -j16 props/Properties_C18.vo props/Properties_C18_Source{Mx,Rc,Sh,Sl,Tl}.vo"
                              "  (coqc 8.16.1 kernel; every property theorem followed by Print Assumptions; "
                              "gen/FiberSyncSource.v regenerated from the tree under test first)")
-    if variant is not None and not all(variant.values()):
+    if variant is not None and not all(variant[k] for k in FLAGS + ["tl_one_counter"]):
         missing = [k for k in FLAGS + ["tl_one_counter"] if not variant[k]]
         for b_ in ck.broken:
             if "Properties_C18_Source" in b_["name"] or "source_" in b_["name"]:
@@ -775,8 +808,8 @@ def main(ck):
                       "distinct_nontrivial counts validated non-trivial traces")
     ck.cov["samples"] = samples[:4]
     if variant is not None and slots_seen:
-        # the slot numbers the real proxies got (two int* variables, then a long* one) against the model's numbering
-        ok, out = vlib.coqc_eval(HEADER + "Eval vm_compute in (Tl.slots source_tl_one_counter [0; 0; 1]).\n", "c18_slots_%d" % os.getpid())
+        # the slot numbers the real proxies got (int*, int*, long*, int*, long*) against the model's numbering
+        ok, out = vlib.coqc_eval(HEADER + "Eval vm_compute in (Tl.slots source_tl_one_counter [0; 0; 1; 0; 1]).\n", "c18_slots_%d" % os.getpid())
         try:
             os.remove(os.path.join(vlib.COQ, "cases", "c18_slots_%d.v" % os.getpid()))
         except OSError:
